@@ -423,7 +423,7 @@ func (b *vbroker) process(c *vconn, p refPacket, tag int, fault int) (answer []b
 		if b.silentAll {
 			return nil, 0
 		}
-		if b.silentArmed && b.silentConn == c.id {
+		if b.silentArmed && b.silentConn == c.id && fault == vfNone {
 			if b.pingsSeen[c.id] >= b.silentFrom {
 				if b.silentAt[c.id] < 0 {
 					b.silentAt[c.id] = verifNow()
